@@ -32,7 +32,9 @@ type Idx struct {
 	Unique bool
 	Parts  []Part
 	Where  string
-	Inline bool // spelled as an inline/table UNIQUE constraint (auto index) in DDL spelling 1
+	// LowerWhere: the DDL spells the keyword of the predicate in lower case ("where").
+	LowerWhere bool
+	Inline     bool // spelled as an inline/table UNIQUE constraint (auto index) in DDL spelling 1
 }
 
 type FK struct {
@@ -42,6 +44,16 @@ type FK struct {
 	RefCols  []string
 	OnUpdate string
 	OnDelete string
+	// Implicit: the DDL names no parent columns (REFERENCES p): the key refers to p's primary key,
+	// which RefCols spells out for the HCL document.
+	Implicit bool
+}
+
+func (fk FK) refList() string {
+	if fk.Implicit {
+		return ""
+	}
+	return " (" + qlist(fk.RefCols) + ")"
 }
 
 type Check struct {
@@ -169,6 +181,11 @@ var Features = []Feature{
 		t.Cols = append(t.Cols, Col{Name: "i", Type: "integer", Gen: "id * 2", GenStored: true})
 	}},
 	// a generated column declared before ordinary columns: rebuild copies must skip it and keep going.
+	// generated column whose declared type has a comma.
+	{Name: "col_gd_generated_decimal", Apply: func(d *DB) {
+		t := d.Table("t")
+		t.Cols = append(t.Cols, Col{Name: "gd", Type: "decimal(10,2)", Gen: "id * 2"})
+	}},
 	{Name: "col_m_virtual_middle", Apply: func(d *DB) {
 		t := d.Table("t")
 		t.Cols = append(t.Cols[:1:1], append([]Col{{Name: "m", Type: "integer", Gen: "id + 2"}}, t.Cols[1:]...)...)
@@ -210,6 +227,11 @@ var Features = []Feature{
 		t := d.Table("t")
 		t.Idx = append(t.Idx, Idx{Name: "idx_a_part", Parts: []Part{{Col: "a"}}, Where: "a > 0"})
 	}},
+	// a partial index whose keyword is spelled in lower case.
+	{Name: "idx_part_lowercase_where", Apply: func(d *DB) {
+		t := d.Table("t")
+		t.Idx = append(t.Idx, Idx{Name: "idx_b_part", Parts: []Part{{Col: "b"}}, Where: "id > 5", LowerWhere: true})
+	}},
 	{Name: "idx_expr", Apply: func(d *DB) {
 		t := d.Table("t")
 		t.Idx = append(t.Idx, Idx{Name: "idx_expr", Parts: []Part{{Expr: "id + 1"}}})
@@ -229,6 +251,11 @@ var Features = []Feature{
 		t := d.Table("t")
 		t.Checks = append(t.Checks, Check{Name: "ck_two", Expr: "(a > 0) AND (id > 0)"})
 	}},
+	// a literal that ends in a backslash (no escape character in SQLite).
+	{Name: "check_literal_trailing_backslash", Apply: func(d *DB) {
+		t := d.Table("t")
+		t.Checks = append(t.Checks, Check{Name: "ck_bs", Expr: "b <> 'x\\'"})
+	}},
 	{Name: "check_paren_literal", Apply: func(d *DB) {
 		t := d.Table("t")
 		t.Checks = append(t.Checks, Check{Name: "ck_b", Expr: "b <> ')'"})
@@ -240,6 +267,13 @@ var Features = []Feature{
 	{Name: "fk_parent_cascade", Group: "fkp", Apply: func(d *DB) {
 		t := d.Table("t")
 		t.FKs = append(t.FKs, fkTo("fk_p", []string{"a"}, "p", []string{"id"}, "", "CASCADE"))
+	}},
+	// REFERENCES p without a column list: the parent's primary key.
+	{Name: "fk_parent_implicit_pk", Group: "fkp", Apply: func(d *DB) {
+		t := d.Table("t")
+		fk := fkTo("", []string{"a"}, "p", []string{"id"}, "", "")
+		fk.Implicit = true
+		t.FKs = append(t.FKs, fk)
 	}},
 	{Name: "fk_parent_setnull_setdefault", Group: "fkp", Apply: func(d *DB) {
 		t := d.Table("t")
@@ -468,7 +502,7 @@ func (t *Table) DDL(spelling int) []string {
 				if fk.Name != "" {
 					s += " CONSTRAINT " + q(fk.Name)
 				}
-				s += " REFERENCES " + q(fk.RefTable) + " (" + qlist(fk.RefCols) + ")" + fkActions(*fk)
+				s += " REFERENCES " + q(fk.RefTable) + fk.refList() + fkActions(*fk)
 			}
 		}
 		defs = append(defs, s)
@@ -498,7 +532,7 @@ func (t *Table) DDL(spelling int) []string {
 		if fk.Name != "" {
 			s = "CONSTRAINT " + q(fk.Name) + " "
 		}
-		s += "FOREIGN KEY (" + qlist(fk.Cols) + ") REFERENCES " + q(fk.RefTable) + " (" + qlist(fk.RefCols) + ")" + fkActions(fk)
+		s += "FOREIGN KEY (" + qlist(fk.Cols) + ") REFERENCES " + q(fk.RefTable) + fk.refList() + fkActions(fk)
 		defs = append(defs, s)
 	}
 	for _, c := range t.Checks {
@@ -540,7 +574,9 @@ func (t *Table) DDL(spelling int) []string {
 			ps = append(ps, x)
 		}
 		s += "INDEX " + q(ix.Name) + " ON " + q(t.Name) + " (" + strings.Join(ps, ", ") + ")"
-		if ix.Where != "" {
+		if ix.Where != "" && ix.LowerWhere {
+			s += " where " + ix.Where
+		} else if ix.Where != "" {
 			s += " WHERE " + ix.Where
 		}
 		out = append(out, s)
